@@ -64,7 +64,6 @@ type blob struct {
 	t types.Type
 }
 
-
 type value interface{}
 
 type tuple []value
@@ -200,7 +199,6 @@ func (x iface) eq(t types.Type, _y interface{}) bool {
 func (x iface) hash(outer types.Type) int {
 	return hashType(x.t)*8581 + hash(outer, x.t, x.v)
 }
-
 
 // equals returns true iff x and y are equal according to Go's
 // linguistic equivalence relation for type t.
@@ -483,4 +481,3 @@ func (it *stringIter) next() tuple {
 	it.i += n
 	return okv
 }
-
